@@ -117,6 +117,10 @@ def generate_bn(streams, tier):
                 a, b = r.sample(range(n), 2)
                 es.append([a, b])
             op["es"] = es
+            # the optional `weights` argument takes another code path than plain edge lists
+            op["weights"] = r.random() < 0.4
+            if r.random() < 0.15:
+                es.append([es[0][0], es[0][0]])  # a self loop inside a bulk insertion
             for a, b in es:
                 if a != b and not sim.has_path(g, b, a):
                     g["nodes"].update([a, b])
@@ -554,6 +558,7 @@ def execute_bn(case, ctx):
         raised = None
         call = None
         post_valid = False
+        post_children = []
         ctx.event(k, m, {kk: vv for kk, vv in op.items() if kk not in ("op", "m", "table", "items")})
 
         if k == "add_node":
@@ -585,12 +590,19 @@ def execute_bn(case, ctx):
                 exp.edges.add((a, b))
             else:
                 must = "accept"
-            call = lambda: model.add_edges_from([(L(a), L(b)) for a, b in op["es"]])
+            if op.get("weights"):
+                call = lambda: model.add_edges_from([(L(a), L(b)) for a, b in op["es"]], weights=[0.5 + j for j in range(len(op["es"]))])
+                ctx.probe("add_edges_from_with_weights")
+            else:
+                call = lambda: model.add_edges_from([(L(a), L(b)) for a, b in op["es"]])
         elif k == "remove_node":
             x = op["x"]
             if x not in ref.nodes:
                 must = "reject"
             else:
+                # children whose CPD agrees with the graph before the removal must have a valid CPD over the remaining parents
+                # afterwards, whether or not the rest of the model is parameterised
+                post_children = [c for c in ref.children(x) if c in ref.cpd and set(ref.cpd[c]["parents"]) == set(ref.parents(c)) and c != x]
                 stale = [c for c in ref.children(x) if c in ref.cpd and x not in ref.cpd[c]["parents"]]
                 if stale:
                     must = "either"
@@ -817,6 +829,16 @@ def execute_bn(case, ctx):
         for j, (mod, rf_) in enumerate(zip(live, refs)):
             tgt_mod = new_model if (new_model is not None and not inplace_like) else model
             _resync(ctx, mod, rf_, names, check_valid=(post_valid and raised is None and mod is tgt_mod), opname=k)
+        if post_children and raised is None and not post_valid:
+            ctx.probe("remove_node_in_partially_parameterised_model")
+            for c in post_children:
+                if L(c) not in model.nodes():
+                    continue
+                cp = model.get_cpds(L(c))
+                why = "CPD of the child disappeared" if cp is None else valid_conditional(cp, list(model.predecessors(L(c))))
+                if why:
+                    ctx.fail("cpd_valid_after_edit", f"{PROP}:invalid_cpd_after:{k}:partially_parameterised", {"child": c, "removed": op.get("x"), "why": why})
+                    break
         # acyclicity of every live model
         for j, mod in enumerate(live):
             if id(mod) not in cyclic_seen and not nx.is_directed_acyclic_graph(mod):
